@@ -6,7 +6,7 @@ width from the argument's type.
 import re
 
 from .. import ir
-from ..analysis import peel_ty
+from ..analysis import show, peel_ty
 from ..common import BLOCK, CORE, MSG, QC, TC, TIMEOUT, VOTE, Env, call_args, callee_paths, key, ordinal_keys
 
 LEVEL = "proof"
@@ -171,6 +171,17 @@ def rules(P, R, prefix="C20"):
                     "covers %s" % sorted(covered),
                     "%s::digest does not feed %s into the hash: two %ss differing only there get the same digest (and the same "
                     "signature)" % (short, sorted(missing), short))
+            # every field is fed on EVERY path: a conditional update makes two messages that differ only in that field collide
+            flow_ = env.flow(f)
+            cond_ups = []
+            for (t, w, loop, n) in ups:
+                pc = flow_.pathcond(n)
+                from ..analysis import T as _T, atoms_of as _atoms
+                if pc != _T and any(not a.startswith(("ok(", "some(")) for a in _atoms(pc)):
+                    cond_ups.append("%s only under %s" % (t, show(pc)))
+            R.judge(not cond_ups, prefix + ".H1", key(f, "every update is unconditional" + tag), f.sp, "%d updates" % len(ups),
+                    "%s::digest feeds fields conditionally (%s): messages differing only in such a field can share a digest, and the "
+                    "pre-image length sets of H4 no longer hold" % (short, "; ".join(cond_ups)))
             # payload loop covers all elements
             for (t, w, loop, n) in ups:
                 if loop is not None:
@@ -311,3 +322,6 @@ def check(P, R, tier):
     R.explanation = EXPLANATION
     R.trusted_base = ["SHA-512 collision resistance", "serde-derive + bincode fidelity", "rustc type layout facts ([u8;N], to_le_bytes -> [u8;8])"]
     rules(P, R)
+    # the sync path "stored block -> helper -> Propose" serves every stored block with its exact decoded value (C07.Y1)
+    from ..common import fold
+    fold(R, P, "c07", ("C07.Y1",), "C20.H6", 8)
